@@ -55,6 +55,11 @@ let scripted_path (path : string) (v : bview) : response hres =
     let r = resp_new (n_of_int 200) in
     HNormal { r with r_body = BKnown (n_of_int 10, true, plain_reader (List.init k (fun i -> n_of_int (48 + i)))) }
   | None ->
+  match strip_prefix "/fl" path with
+  | Some k ->
+    let r = resp_new (n_of_int 200) in
+    HNormal { r with r_body = BKnown (n_of_int 10, true, plain_reader (List.init (10 + num_int k) (fun i -> n_of_int (if i < 10 then 48 + i else 90)))) }
+  | None ->
   if path = "/fm" then (let r = resp_new (n_of_int 200) in HNormal { r with r_body = BKnown (n_of_int 10, false, plain_reader []) }) else
   if path = "/d" then HDrop
   else if path = "/p" then text 500 "Server error"      (* the panic is turned into this by HttpServerBuilder::spawn *)
@@ -120,7 +125,8 @@ let oracle (script : int list) (impl_line : string) : string =
          if faulty_path path then `Faulty else
          (match view_of_string vstr with
           | Some v -> (match scripted_path path v with
-              | HNormal r -> `Normal (int_of_n r.r_code, (match r.r_body with BKnown (_, _, src) -> string_of_bytes src.r_data | _ -> "?"))
+              | HNormal r -> `Normal (int_of_n r.r_code, (match r.r_body with
+                  | BKnown (n, _, src) -> string_of_bytes (List.filteri (fun i _ -> i < int_of_n n) src.r_data) | _ -> "?"))
               | HDrop -> `Drop | HGetBody _ -> `Get)
           | None ->
             (* memory / file views: the answer echoes the view string, the code is path-determined *)
@@ -128,7 +134,8 @@ let oracle (script : int list) (impl_line : string) : string =
             (match scripted_path path fake with
              | HNormal r ->
                let code = int_of_n r.r_code in
-               let body = (match r.r_body with BKnown (_, _, src) -> string_of_bytes src.r_data | _ -> "?") in
+               let body = (match r.r_body with
+                   | BKnown (n, _, src) -> string_of_bytes (List.filteri (fun i _ -> i < int_of_n n) src.r_data) | _ -> "?") in
                (* /r<M>: decide over-limit from the length in the view string *)
                (match strip_prefix "/r" path with
                 | Some m ->
